@@ -30,7 +30,11 @@ static long TSZ;             /* number of strings of length <= L */
 static int s_len[1100]; static long s_val[1100]; static long s_off[MAXL + 2]; static long s_pow[MAXL + 2];
 
 static logmath_t *lmath;
-static const char *alpha[NSYM] = { "go", "forward", "ten" };
+/* the terminals: plain words, or quoted tokens (with blanks and escaped quotes inside). A quoted token is ONE word; the library keeps the
+ * quote characters in the word's spelling (noted in DESIGN.md as an observation), so the expected label is the token as written */
+static const char *alpha_plain[NSYM] = { "go", "forward", "ten" };
+static const char *alpha_quoted[NSYM] = { "\"go on\"", "forward", "\"t \\\"x\\\" n\"" };
+static const char **alpha = alpha_plain;
 
 typedef struct lang { uint64_t b[NWORDS]; } lang;
 
@@ -339,6 +343,8 @@ static void run(long i, vh_rng *r)
     memset(&g, 0, sizeof(g));
     g.nrules = vh_chance(r, 0.3) ? 1 : vh_range(r, 2, 6);
     o.allow_backref = vh_chance(r, 0.4); o.allow_undef = vh_chance(r, 0.06); o.allow_void = vh_chance(r, 0.15); o.allow_weights = vh_chance(r, 0.5);
+    alpha = vh_chance(r, 0.25) ? alpha_quoted : alpha_plain;
+    if (alpha == alpha_quoted) vh_count("grammars_with_quoted_tokens", 1);
     if (vh_chance(r, 0.3)) {
         /* rule names are case-sensitive: names that differ only in letter case are different rules */
         for (k = 0; k < g.nrules; ++k) { const char *base = "rule"; int q; for (q = 0; q < 4; ++q) g.name[k][q] = (char)(((k >> q) & 1) ? base[q] - 32 : base[q]); if (k >= 16) snprintf(g.name[k] + 4, sizeof(g.name[k]) - 4, "%d", k / 16); else g.name[k][4] = 0; }
